@@ -175,7 +175,7 @@ def run(case):
         return core.run_guarded(h)
     d = os.path.join(core.VERIF, ".work", "c16.%d" % os.getpid())
     os.makedirs(d, exist_ok=True)
-    fn = os.path.join(d, "a.wav")
+    fn = core.fname(os.path.join(d, "a.wav"))
     try:
         if op == "query":
             def q():
